@@ -108,7 +108,7 @@ fn parse_cases(text: &str) -> Vec<Case> {
             "device" => c.device = val.to_string(),
             "input" => c.input = unhex(val),
             "start" => c.start = val.split(',').filter(|x| !x.is_empty()).map(|x| x.to_string()).collect(),
-            "cap" => c.cap = if val == "none" { None } else { Some(val.parse().unwrap()) },
+            "cap" => c.cap = if val == "none" { None } else if val == "std" { Some(999_999) } else { Some(val.parse().unwrap()) },
             "n" => c.n = val.parse().unwrap(),
             "chunks" => c.chunks = val.split(',').filter(|x| !x.is_empty()).map(|x| x.parse().unwrap()).collect(),
             "tailchunk" => c.tail_chunk = val.parse().unwrap(),
@@ -328,6 +328,8 @@ impl microscpi::Write for PassWriter {
 pub trait OutBytes { fn bytes(&self) -> Vec<u8>; fn ops(&self) -> Vec<String> { Vec::new() } }
 impl OutBytes for PassWriter { fn bytes(&self) -> Vec<u8> { self.out.clone() } fn ops(&self) -> Vec<String> { self.ops.clone() } }
 impl<const N: usize> OutBytes for heapless::Vec<u8, N> { fn bytes(&self) -> Vec<u8> { self.iter().cloned().collect() } }
+#[cfg(feature = "stdw")]
+impl OutBytes for std::vec::Vec<u8> { fn bytes(&self) -> Vec<u8> { self.clone() } }
 
 fn do_run<D: Interface + HasRec, W: microscpi::Write + OutBytes>(mut dev: D, case: &Case, mut w: W) -> Outcome {
     dev.rec().script = case.script.clone();
